@@ -24,7 +24,7 @@ var tokSpell = map[string][]string{
 	"attr":   {"<const>", "<close>"},
 }
 
-var tokSeps = []string{" ", "\n", "\t", "\r\n", " --[[c]] ", " -- c\n", "  ", "\n\n", " --[==[ x\ny ]==] ", "\r"}
+var tokSeps = []string{" ", "\n", "\t", "\r\n", " --[[c]] ", " -- c\n", " -- c\r", " -- c\r\n", "  ", "\n\n", " --[==[ x\ny ]==] ", "\r"}
 
 var tokAlphabet = []string{"name", "number", "string", "nil", "true", "function", "end", "local", "if", "then", "elseif", "else", "while", "do", "for", "in",
 	"repeat", "until", "return", "goto", "::", "=", ",", ";", "(", ")", "{", "}", "[", "]", ".", ":", "binop", "unop", "-", "~"}
